@@ -72,6 +72,10 @@ def run(ctx):
                 jobs.append({'script': fault_script(rt, f)})
                 where = 'connect' if cut == 0 else ('header' if cut < hlen else ('payload' if cut < n else 'complete-request'))
                 plan.append({'rtype': rt, 'fault': f, 'where': where})
+        # the complete request followed by a reset at once (the default variant leaves 10 ms in between)
+        f = {'kind': 'cut', 'cut': n, 'ending': 'RST', 'when': 'at-once'}
+        jobs.append({'script': fault_script(rt, f)})
+        plan.append({'rtype': rt, 'fault': f, 'where': 'complete-request-reset-at-once'})
         jobs.append({'script': fault_script(rt, {'kind': 'garbage'})})
         plan.append({'rtype': rt, 'fault': {'kind': 'garbage'}, 'where': 'garbage-payload'})
     for rt in ('worker', 'pworker'):
